@@ -514,7 +514,7 @@ const MAX_INSTANCE_TYPE_SIZE: usize = 512;
 /// Two recursive calls at two different larger types double the number of instances with every
 /// level, long before any type argument is large: the number of instances of one generic
 /// function is bounded as well.
-const MAX_INSTANCES_PER_FUNCTION: usize = 4096;
+const MAX_INSTANCES_PER_FUNCTION: usize = 1024;
 
 fn ty_size(ty: &Ty) -> usize {
     match ty {
